@@ -23,6 +23,8 @@ structure Inv (fl : Flavour) (s : St) : Prop where
   sub : s.recvOk.Sublist s.consumed
   /-- … and the rest of them were destroyed by the channel itself -/
   cons : ∀ v, count v s.consumed = count v s.recvOk + count v s.chanDropped
+  /-- as long as the channel itself destroyed nothing, what was taken out is exactly what was delivered -/
+  nodrop : s.chanDropped = [] → s.consumed = s.recvOk
   cap : capOk fl s
   tagS : s.sentBy.map (·.2) = s.sentOk
   tagR : s.recvBy.map (·.2) = s.recvOk
@@ -35,23 +37,27 @@ theorem count_take_add_drop (v : Val) (k : Nat) (l : List Val) :
 
 theorem Inv.push {fl s} (h : Inv fl s) (p : Nat) (vs : List Val)
     (hc : capOk fl (s.push p vs)) : Inv fl (s.push p vs) := by
-  refine ⟨?_, h.sub, h.cons, hc, ?_, h.tagR⟩
+  refine ⟨?_, h.sub, h.cons, h.nodrop, hc, ?_, h.tagR⟩
   · simp [St.push, h.seq]
   · simp [St.push, h.tagS, Function.comp_def]
 
 theorem Inv.pop {fl s} (h : Inv fl s) (r k : Nat) (hc : capOk fl (s.pop r k)) : Inv fl (s.pop r k) := by
-  refine ⟨?_, ?_, ?_, hc, h.tagS, ?_⟩
+  refine ⟨?_, ?_, ?_, ?_, hc, h.tagS, ?_⟩
   · simp [St.pop, h.seq]
   · exact Sublist.append h.sub (Sublist.refl _)
   · intro v; simp [St.pop, count_append, h.cons v]; omega
+  · intro hd; simp [St.pop, h.nodrop hd]
   · simp [St.pop, h.tagR, Function.comp_def]
 
 
 theorem Inv.drainBuf {fl s} (h : Inv fl s) : Inv fl s.drainBuf := by
-  refine ⟨?_, ?_, ?_, ?_, h.tagS, h.tagR⟩
+  refine ⟨?_, ?_, ?_, ?_, ?_, h.tagS, h.tagR⟩
   · simp [St.drainBuf, h.seq]
   · exact h.sub.trans (sublist_append_left _ _)
   · intro v; simp [St.drainBuf, count_append, h.cons v]; omega
+  · intro hd
+    simp only [St.drainBuf, append_eq_nil_iff] at hd
+    simp [St.drainBuf, hd.2, h.nodrop hd.1]
   · have hc := h.cap
     unfold capOk at hc ⊢
     cases hk : fl.capOf <;> simp_all [St.drainBuf]
@@ -80,10 +86,11 @@ theorem Frame.trans {a b c : St} (h1 : Frame a b) (h2 : Frame b c) : Frame a c :
   · exact Or.inr e
 
 theorem Inv.frame {fl s s'} (h : Inv fl s) (f : Frame s s') : Inv fl s' := by
-  refine ⟨?_, ?_, ?_, ?_, ?_, ?_⟩
+  refine ⟨?_, ?_, ?_, ?_, ?_, ?_, ?_⟩
   · rw [f.sentOk, f.consumed, f.buf]; exact h.seq
   · rw [f.recvOk, f.consumed]; exact h.sub
   · intro v; rw [f.consumed, f.recvOk, f.chanDropped]; exact h.cons v
+  · rw [f.chanDropped, f.consumed, f.recvOk]; exact h.nodrop
   · have hc := h.cap
     unfold capOk at hc ⊢
     cases hk : fl.capOf <;> simp only [hk] at hc ⊢
@@ -112,11 +119,6 @@ theorem frame_mbGot (fl) (s : St) (k f) : Frame s (mbGot fl s k f) := by
 
 /-! ### what one atomic step does to the ghost accounts -/
 
-/-- values still in the hands of an operation in progress -/
-def inHand : P → List Val
-  | .bsend _ _ _ _ rest _ => rest
-  | .bsendEnd _ _ _ rest => rest
-  | _ => []
 
 def gotOf : P → List Val
   | .brecv _ _ _ _ got => got
@@ -155,7 +157,7 @@ invariant and balances every ghost account. -/
 structure StepOk (fl : Flavour) (s : St) (p : P) (s' : St) (p' : P) (δ : List Val) : Prop where
   inv : Inv fl s → Inv fl s'
   created : s'.created = s.created ++ δ
-  tok : ∀ v, count v δ + count v (inHand p) + count v s.placed = count v (inHand p') + count v s'.placed
+  tok : ∀ v, count v δ + count v (P.inHand p) + count v s.placed = count v (P.inHand p') + count v s'.placed
   recv : ∀ v, count v s.recvOk + count v (gotOf p') + count v s'.owed
             = count v s'.recvOk + count v (gotOf p) + count v s.owed
   sent : ∀ v, count v s.sentOk + count v (sentOf p') + count v s'.sdv
